@@ -24,7 +24,7 @@ THeld   == IsEvent("held") /\ held' = Ev.fds /\ UNCHANGED <<svars, scn>>
 TReport == IsEvent("report") /\ Report(Ev, held) /\ UNCHANGED <<scn, held>>
 TStray  == IsEvent("stray_report") /\ StrayReport /\ UNCHANGED <<scn, held>>
 TNoRep  == IsEvent("noreport") /\ NoReport /\ UNCHANGED <<scn, held>>
-TWatch  == IsEvent("watchdog") /\ Watchdog(UNION {SetOf(Ev.holders[i][2]) : i \in 1..Len(Ev.holders)}) /\ UNCHANGED <<scn, held>>
+TWatch  == IsEvent("watchdog") /\ Watchdog(UNION {SetOf(Ev.holders[i][2]) : i \in 1..Len(Ev.holders)}, Ev.self_deadlock) /\ UNCHANGED <<scn, held>>
 TEofLat == IsEvent("eoflat") /\ EofLatency(Ev.us) /\ UNCHANGED <<scn, held>>
 TPost   == IsEvent("post") /\ Post(Ev.fds, Ev.children) /\ UNCHANGED <<scn, held>>
 TEnd ==
